@@ -424,7 +424,7 @@ func main() {
 		runs = append(runs, run{"wrapper/" + k, 3})
 	}
 	for i, r := range runs {
-		c.Explore(r.s, r.b, 1.0/float64(len(runs)-i))
+		c.ExploreBoth(r.s, r.b, 1.0/float64(len(runs)-i))
 	}
 	c.Finish()
 }
